@@ -12,7 +12,8 @@ Local Open Scope Z_scope.
     inverted or beyond the end), start time, initial volume / rate / panning values (fixed or modulator-linked),
     fade-in, any conforming decoder (any packet sizes, any seek landings), any history of decoder-loop iterations
     and callbacks with volume / rate / panning / pause / resume / resume_at / stop commands and any infos, in which
-    every rate value read is non-negative:  the two constructors succeed, and whenever the streaming run completes
+    every rate value read is non-negative:  the two constructors succeed and the two handles report the same
+    position and state before the first callback, and whenever the streaming run completes
     with the decoder having kept ahead (ghost flag [false]: at every frame processed the ring held the four frames
     looked at and the frames popped, or the decoder had finished), the static run completes too, with the same
     output frames, the same handle state and [finished()] after every [process] call, the same handle state after
@@ -31,6 +32,7 @@ Theorem streaming_simulates_static_any :
       exists x0 w0,
         static_new A azero V silence identity P pcenter fuel sr (audio_source A azero audio) slice g = Ok x0 /\
         stream_new A azero V silence identity P pcenter audio land sr slice g = Ok w0 /\
+        sh_pos (x_core x0) = y_pos (z_core (w_sound w0)) /\ h_mirror (x_shell x0) = h_mirror (z_shell (w_sound w0)) /\
         forall ys,
           run_stream powf A azero F interp cast ascale V vinterp silence identity amp P pinterp panned fuel
                      audio psize land cap w0 evs = Ok (ys, false) ->
@@ -74,6 +76,7 @@ Theorem streaming_simulates_static_Q :
       exists x0 w0,
         static_new A azero V silence identity P pcenter fuel sr (audio_source A azero audio) slice g = Ok x0 /\
         stream_new A azero V silence identity P pcenter audio land sr slice g = Ok w0 /\
+        sh_pos (x_core x0) = y_pos (z_core (w_sound w0)) /\ h_mirror (x_shell x0) = h_mirror (z_shell (w_sound w0)) /\
         forall ys,
           run_stream powf A azero F interp cast ascale V vinterp silence identity amp P pinterp panned fuel
                      audio psize land cap w0 evs = Ok (ys, false) ->
